@@ -6,7 +6,7 @@ import symtable
 
 from .common import *  # noqa: F403
 from ..loader import ancestors
-from ..astutil import assignments_to, iter_stmts
+from ..astutil import assignments_to, iter_stmts, walk_local
 
 HOOKS = "hooks.py"
 
@@ -35,16 +35,45 @@ def r1_cell(chk: Check) -> None:
                 if isinstance(n.value, ast.Name):
                     # a plain local copy of the cell (`current = filter_set`) stands for the cell
                     src = n.value.id
-                    copies = [v for _s, v in assignments_to(f.node, src) if isinstance(v, ast.Name)]
-                    if len(copies) == 1 and len(assignments_to(f.node, src)) == 1:
-                        src = copies[0].id
+                    # the copy may be made in this function or in an enclosing one (a closure variable of the decorator)
+                    scope_: FuncInfo | None = f
+                    while scope_ is not None and scope_ is not outer:
+                        asg = assignments_to(scope_.node, src)
+                        copies = [v for _s, v in asg if isinstance(v, ast.Name)]
+                        if len(copies) == 1 and len(asg) == 1:
+                            src = copies[0].id
+                            break
+                        scope_ = scope_.parent
                     cell_names.add(src)
                     reg_sites.append((f, n))
                 else:
                     chk.undecided("C19.R1", f, norm(n), "hook.filter_set assigned from a non-name expression", f.loc(n))
-    if len(cell_names) != 1:
+    # the cell itself: the name the outer function binds to the result of init_filter_set(...)
+    outer_cells = {s_.targets[0].id for s_ in outer.node.body if isinstance(s_, ast.Assign) and len(s_.targets) == 1 and isinstance(s_.targets[0], ast.Name) and isinstance(s_.value, ast.Call) and isinstance(s_.value.func, ast.Name) and s_.value.func.id == "init_filter_set"}
+    if len(outer_cells) == 1 and len(cell_names) > 1 and next(iter(outer_cells)) in cell_names:
+        cell = next(iter(outer_cells))
+        for f_, site_ in list(reg_sites):
+            v_ = site_.value
+            src_ = v_.id if isinstance(v_, ast.Name) else "?"
+            # re-resolve this site's source
+            scope2: FuncInfo | None = f_
+            resolved_ = src_
+            while scope2 is not None and scope2 is not outer:
+                asg_ = assignments_to(scope2.node, resolved_)
+                cp_ = [x for _s, x in asg_ if isinstance(x, ast.Name)]
+                if len(cp_) == 1 and len(asg_) == 1:
+                    resolved_ = cp_[0].id
+                    break
+                scope2 = scope2.parent
+            if resolved_ != cell:
+                reg_sites.remove((f_, site_))
+                chk.violation("C19.R1", f_, f"registration `{norm(site_)[:40]}` uses the set the decorator chain populated",
+                              f"`{src_}` is not the shared cell `{cell}` (nor a copy of it): the hook is registered with a FilterSet that apply_to / skip_for never wrote to - its filters are lost and it is applied to every operation",
+                              f_.loc(site_))
+    elif len(cell_names) != 1:
         raise Undecided(f"expected one cell name feeding hook.filter_set, found {sorted(cell_names)}")
-    cell = cell_names.pop()
+    else:
+        cell = cell_names.pop()
 
     # symtable facts: in which nested function is the cell free/nonlocal, in which is it local
     st = symtable.symtable(mod.source, mod.path, "exec")
@@ -72,6 +101,21 @@ def r1_cell(chk: Check) -> None:
         if s.is_free() or s.is_nonlocal():
             return "cell"
         return "global" if s.is_global() else "?"
+
+    def fresh_before_closure(f: FuncInfo) -> bool | None:
+        """f does not touch the cell itself: it registers with a copy captured from its enclosing function.  Fine when
+        that function re-initialises the cell on every path between taking the copy and defining f."""
+        p_ = f.parent
+        if p_ is None or p_ is outer or scope_kind(p_, cell) != "cell":
+            return None
+        gp = cfg_of(p_)
+        copies_ = [s_ for s_, v_ in assignments_to(p_.node, "") if False]
+        copy_nodes = [nid for n_ in walk_body(p_.node) if isinstance(n_, ast.Assign) and isinstance(n_.value, ast.Name) and n_.value.id == cell for nid in gp.nodes_of(n_)]
+        def_nodes = [nid for n_ in walk_body(p_.node) if n_ is f.node for nid in gp.nodes_of(n_)]
+        reb = [nid for s_, v_ in assignments_to(p_.node, cell) if isinstance(v_, ast.Call) and isinstance(v_.func, ast.Name) and v_.func.id == "init_filter_set" for nid in gp.nodes_of(s_)]
+        if not copy_nodes or not def_nodes or not reb:
+            return None
+        return gp.path(copy_nodes, def_nodes, avoid=reb, edge_ok=lambda a, b, lbl: not lbl.startswith("exc:")) is None
 
     # (b) every init_filter_set(...) result is bound to the cell
     init_calls = []
@@ -121,8 +165,17 @@ def r1_cell(chk: Check) -> None:
         saved = {n_.targets[0].id for n_ in walk_body(f.node) if isinstance(n_, ast.Assign) and len(n_.targets) == 1 and isinstance(n_.targets[0], ast.Name) and isinstance(n_.value, ast.Name) and n_.value.id == cell
                  and any(isinstance(w_, ast.Assign) and any(isinstance(t, ast.Attribute) and t.attr == "filter_set" for t in w_.targets) and isinstance(w_.value, ast.Name) and w_.value.id == n_.targets[0].id for w_ in walk_body(f.node))}
         consumed += [nid for n_ in walk_body(f.node) if isinstance(n_, ast.Assign) and len(n_.targets) == 1 and isinstance(n_.targets[0], ast.Name) and n_.targets[0].id in saved and isinstance(n_.value, ast.Name) and n_.value.id == cell for nid in g.nodes_of(n_)]
+        # ... or captured by a nested closure that stores it on the hook (`pending = cell` ... `func.filter_set = pending`)
+        nested_of_f = [x for x in mod.functions.values() if x.parent is f]
+        captured = {n_.targets[0].id for n_ in walk_body(f.node) if isinstance(n_, ast.Assign) and len(n_.targets) == 1 and isinstance(n_.targets[0], ast.Name) and isinstance(n_.value, ast.Name) and n_.value.id == cell
+                    and any(isinstance(w_, ast.Assign) and any(isinstance(t, ast.Attribute) and t.attr == "filter_set" for t in w_.targets) and isinstance(w_.value, ast.Name) and w_.value.id == n_.targets[0].id for x in nested_of_f for w_ in walk_body(x.node))}
+        consumed += [nid for n_ in walk_body(f.node) if isinstance(n_, ast.Assign) and len(n_.targets) == 1 and isinstance(n_.targets[0], ast.Name) and n_.targets[0].id in captured and isinstance(n_.value, ast.Name) and n_.value.id == cell for nid in g.nodes_of(n_)]
         passes_on = any(isinstance(a, ast.Name) and a.id == cell for a in c.args[1:]) or any(isinstance(k.value, ast.Name) and k.value.id == cell for k in c.keywords)
         in_reject = any(isinstance(a, ast.ExceptHandler) and any(isinstance(x, ast.Raise) for x in walk_body(a)) for a in ancestors(s))
+        if not in_reject:
+            # a helper that is only ever called from handlers that re-raise (`except Exception: reset(); raise`)
+            callers = [(x, c_) for x in [outer, *nested] for c_ in body_calls(x) if isinstance(c_.func, ast.Name) and c_.func.id == f.name and x is not f]
+            in_reject = bool(callers) and all(any(isinstance(a, ast.ExceptHandler) and any(isinstance(y, ast.Raise) for y in walk_body(a)) for a in ancestors(c_)) for _x, c_ in callers)
         construct = f"{f.name}: pending filters survive `{norm(s)[:48]}`"
         w = g.path([g.entry], here, avoid=consumed, edge_ok=lambda a, b, lbl: not lbl.startswith("exc:")) if here else None
         if passes_on or in_reject or w is None:
@@ -132,10 +185,58 @@ def r1_cell(chk: Check) -> None:
                           f"`{cell}` is replaced by a fresh FilterSet although the one it held was not stored on any hook on this path: filters given BEFORE this step are dropped - `hook.apply_to(method=\"PUT\")(\"map_query\")(f)` registers f without its filter, so it is applied to every operation (the mirror spelling `hook(\"map_query\").apply_to(...)` works)",
                           f.loc(c), g.describe_path(w, mod.relpath))
 
+    # (c6) whenever a registration closure hands control back (any `return`), the shared cell holds a FRESH set: a set
+    #      that still belongs to an unfinished registration (the by-name decorator that may never be applied, or whose
+    #      chained filter call is rejected) would be inherited by the next hook registered on this dispatcher
+    for f in nested:
+        if scope_kind(f, cell) != "cell" or f is init or f.parent is init:
+            continue
+        g = cfg_of(f)
+        fresh_rebinds = [nid for s_, v in assignments_to(f.node, cell) if isinstance(v, ast.Call) and isinstance(v.func, ast.Name) and v.func.id == "init_filter_set"
+                         and not any(isinstance(a, ast.Name) and a.id == cell for a in v.args[1:]) and not any(isinstance(k.value, ast.Name) and k.value.id == cell for k in v.keywords) for nid in g.nodes_of(s_)]
+        any_rebinds = [nid for s_, v in assignments_to(f.node, cell) for nid in g.nodes_of(s_)]
+        if not any_rebinds:
+            continue
+        rets = [n_.id for n_ in g.live() if n_.kind in ("return", "stmt") and isinstance(n_.ast, ast.Return)]
+        construct = f"{f.name}: the cell `{cell}` is fresh whenever control returns to the user"
+        w = g.path([g.entry], rets, avoid=fresh_rebinds, edge_ok=lambda a, b, lbl: not lbl.startswith("exc:")) if rets else None
+        if w is None:
+            chk.ok("C19.R1", f, construct, "", f.loc())
+        else:
+            chk.violation("C19.R1", f, construct,
+                          f"on a path to `return` the cell still holds (or is bound to a continuation of) the set of the registration in progress: if that registration is never completed - `named = hook(\"map_query\")` left pending, or a chained `.apply_to()` on it raising `Filter already exists` - the NEXT, unrelated hook silently gets those filters",
+                          f.loc(), g.describe_path(w, mod.relpath))
+
+    # (c7) a filter call that is rejected (`FilterSet.include/exclude` raise IncorrectUsage for duplicates, empty or
+    #      contradictory arguments) rejects the whole registration: the closures that populate the CELL's set re-initialise
+    #      the cell on that exceptional exit, otherwise the earlier terms and the `used` flag stay pending
+    from ..cfg import handler_classes as _hc
+    resetters = {x.name for x in nested if any(isinstance(v, ast.Call) and isinstance(v.func, ast.Name) and v.func.id == "init_filter_set" for _s, v in assignments_to(x.node, cell))}
+    for f in [x for x in nested if x.parent is init]:
+        g = cfg_of(f, "filter-raises", extra_raises=lambda node: ["IncorrectUsage"] if any(isinstance(c_, ast.Call) and last_attr(c_) in ("include", "exclude") for c_ in walk_local(node)) else [])
+        for c in body_calls(f):
+            if last_attr(c) not in ("include", "exclude"):
+                continue
+            here = g.stmt_nodes_containing(c)
+            exc_succ = [m for n_ in here for m, lbl in g.nodes[n_].succ if lbl == "exc:IncorrectUsage"]
+            reset_nodes = [nid for x in body_calls(f) if isinstance(x.func, ast.Name) and x.func.id in resetters for nid in g.stmt_nodes_containing(x)]
+            construct = f"{f.name}: a rejected `{unparse(c.func, 30)}` re-initialises the pending state"
+            if not exc_succ:
+                chk.undecided("C19.R1", f, construct, "exception edge of the filter call not in the CFG", f.loc(c))
+                continue
+            w = g.path(exc_succ, g.exits(), avoid=reset_nodes)
+            if w is None:
+                chk.ok("C19.R1", f, construct, "", f.loc(c))
+            else:
+                chk.violation("C19.R1", f, construct,
+                              "when the filter call raises IncorrectUsage (duplicate filter, empty or contradictory arguments) the terms added so far and the `used` flag stay in the shared cell: after `@hook.apply_to(method=\"GET\").apply_to(method=\"GET\")` fails, the next UNFILTERED hook silently runs for GET only; after `hook.apply_to(name=..., name_regex=...)` fails, a plain `before_load_schema` registration is rejected as 'filters are not applicable'",
+                              f.loc(c), g.describe_path(w, mod.relpath))
+
     # (c) after a registration site the cell is rebound on every path to a normal exit
     for f, site in reg_sites:
         if scope_kind(f, cell) != "cell":
-            chk.undecided("C19.R1", f, norm(site), f"`{cell}` is not a closure cell in this function", f.loc(site))
+            fb = fresh_before_closure(f)
+            chk.decide(True if fb else None, "C19.R1", f, f"registration `{norm(site)[:40]}`: the cell `{cell}` was re-initialised before this closure was created", f"`{cell}` is not a closure cell in this function", f.loc(site))
             continue
         g = cfg_of(f)
         src = g.nodes_of(site)
@@ -194,7 +295,9 @@ def r1_cell(chk: Check) -> None:
                                   "on some path the callable is registered WITHOUT its filter_set attribute being written: a function that was registered with apply_to/skip_for before keeps that old filter set, so a later UNFILTERED registration of it is still skipped for the operations the old filter excluded",
                                   f.loc(c), g.describe_path(w, mod.relpath))
             construct = f"the cell `{cell}` is rebound before register_hook_with_name({hv}, ...) can reject the hook"
-            if not rebinds:
+            if not rebinds and scope_kind(f, cell) != "cell" and fresh_before_closure(f):
+                chk.ok("C19.R1", f, construct, "the enclosing function re-initialised the cell before this closure was created", f.loc(c))
+            elif not rebinds:
                 chk.undecided("C19.R1", f, construct, "no rebind of the cell in this function", f.loc(c))
             else:
                 w = g.path([g.entry], g.stmt_nodes_containing(c), avoid=rebinds, edge_ok=lambda a, b, lbl: not lbl.startswith("exc:"))
@@ -209,7 +312,6 @@ def r1_cell(chk: Check) -> None:
     #      (validate_filterable_hook rejects filters on before_process_path / *_load_schema) - no complete path
     #      entry -> call -> exceptional exit may leave the pending apply_to/skip_for state in the cell
     n_validators = 0
-    from ..astutil import walk_local
 
     def _raised_by(name: str) -> list[str]:
         toks: list[str] = []
